@@ -1,6 +1,7 @@
 import Rml.Model.Time
 import Driver.Util
 import Driver.AmfText
+import Driver.ChunkOps
 open Rml
 
 namespace Driver
@@ -11,7 +12,7 @@ def showOrd : Ordering → String
 def showB (b : Bool) : String := if b then "1" else "0"
 
 structure St where
-  dummy : Nat := 0
+  chunk : ChunkSt := {}
 
 def timeOp (a b : Nat) : String :=
   s!"{Time.add a b} {Time.sub a b} {showOrd (Time.tsCompare a b)} {showB (Time.tsGt a b)} {showB (Time.tsLt a b)} {showB (Time.tsGe a b)} {showB (Time.tsLe a b)} {showB (Time.tsEq a b)}"
@@ -36,7 +37,12 @@ def step (st : St) (line : String) : St × String :=
     match parseVals v with
     | some vs => (st, checkEnc vs (r ++ " " ++ h))
     | none => (st, "bad-op")
-  | tok :: _ => if tok.startsWith "!" then (st, "!") else (st, "bad-op")
+  | "note" :: _ => (st, "note")
+  | tok :: rest =>
+    if tok.startsWith "!" then (st, "!") else
+    match chunkOp st.chunk (tok :: rest) with
+    | some (c, out) => ({ st with chunk := c }, out)
+    | none => (st, "bad-op")
   | _ => (st, "bad-op")
 
 partial def loop (h : IO.FS.Stream) (out : IO.FS.Stream) (st : St) : IO Unit := do
